@@ -39,7 +39,8 @@ func (c *ConfirmCache) Push(data *BlockConfirmData) {
 	c.cache[data.Height][data.Hash] = append(c.cache[data.Height][data.Hash], data)
 
 	if len(c.cache) > 10240 {
-		c.Clear(^uint32(0))
+		// the lock is held already. Clear would wait for it for ever
+		c.clear(^uint32(0))
 	}
 }
 
@@ -67,6 +68,11 @@ func (c *ConfirmCache) Clear(height uint32) {
 	c.lock.Lock()
 	defer c.lock.Unlock()
 
+	c.clear(height)
+}
+
+// clear is Clear for a caller which holds the lock
+func (c *ConfirmCache) clear(height uint32) {
 	for h, _ := range c.cache {
 		if h <= height {
 			delete(c.cache, h)
@@ -136,7 +142,8 @@ func (c *BlockCache) Add(block *types.Block) {
 	}
 
 	if len(c.cache) > 10240 {
-		c.Clear(^uint32(0))
+		// the lock is held already. Clear would wait for it for ever
+		c.clear(^uint32(0))
 	}
 }
 
@@ -158,6 +165,11 @@ func (c *BlockCache) Clear(height uint32) {
 	c.lock.Lock()
 	defer c.lock.Unlock()
 
+	c.clear(height)
+}
+
+// clear is Clear for a caller which holds the lock
+func (c *BlockCache) clear(height uint32) {
 	index := -1
 	for i, item := range c.cache {
 		if item.Height <= height {
